@@ -28,15 +28,15 @@ Qed.
 (* (2) trades that cross limit orders (PairV2.SellWithOrders / BuyWithOrders): for ANY
    value of the float/sqrt oracle and any order book, a completed trade leaves the
    reserve product no smaller, both reserves positive, and respects the limit. *)
-Theorem C13_sell_with_orders_keeps_K : forall (orc : Z -> Z -> Z -> Z -> Z) r0 r1 book a m t,
+Theorem C13_sell_with_orders_keeps_K : forall (orc : Z -> Z -> Z -> Z -> Z) dir r0 r1 book a m t,
   0 < r0 -> 0 < r1 ->
-  sell_with_orders orc rat_mul_int r0 r1 book a m = Val t ->
+  sell_with_orders orc rat_mul_int dir r0 r1 book a m = Val t ->
   r0 * r1 <= t_r0 t * t_r1 t /\ r0 <= t_r0 t /\ 0 < t_r1 t /\ 0 < t_out t /\ m <= t_out t.
 Proof. intros orc; exact (sell_with_orders_K orc rat_mul_int rat_mul_int_nonneg). Qed.
 
-Theorem C13_buy_with_orders_keeps_K : forall (orc : Z -> Z -> Z -> Z -> Z) r0 r1 book m o t,
+Theorem C13_buy_with_orders_keeps_K : forall (orc : Z -> Z -> Z -> Z -> Z) dir r0 r1 book m o t,
   0 < r0 -> 0 < r1 ->
-  buy_with_orders orc rat_div_int r0 r1 book m o = Val t ->
+  buy_with_orders orc rat_div_int dir r0 r1 book m o = Val t ->
   r0 * r1 <= t_r0 t * t_r1 t /\ r0 <= t_r0 t /\ 0 < t_r1 t /\ t_out t = o /\ 0 < t_in t.
 Proof. intros orc; exact (buy_with_orders_K orc rat_div_int rat_div_int_nonneg). Qed.
 
@@ -80,7 +80,7 @@ Proof. vm_compute. auto. Qed.
 
 Example C13_orders_example :
   let book := [ {| oid := 1; obuy := 20000000000; osell := 39000000000; oowner := 7; oheight := 1 |} ] in
-  match sell_with_orders oracle_float rat_mul_int 1000000000000 2000000000000 book 60000000000 0 with
+  match sell_with_orders oracle_float rat_mul_int true 1000000000000 2000000000000 book 60000000000 0 with
   | Val t => t_fills t <> [] /\ 1000000000000 * 2000000000000 <= t_r0 t * t_r1 t
   | _ => False
   end.
